@@ -16,6 +16,7 @@ import (
 	"github.com/smartcontractkit/chainlink-ccip/internal/plugincommon"
 	"github.com/smartcontractkit/chainlink-ccip/internal/reader"
 	readerpkg "github.com/smartcontractkit/chainlink-ccip/pkg/reader"
+	"github.com/smartcontractkit/chainlink-ccip/pkg/consts"
 	cciptypes "github.com/smartcontractkit/chainlink-ccip/pkg/types/ccipocr3"
 )
 
@@ -26,6 +27,8 @@ func vC16Digest(b byte) types.ConfigDigest {
 	d[0] = b
 	return d
 }
+
+const vC16Don = 7
 
 func vC16Plugin(ids []commontypes.OracleID, writers map[commontypes.OracleID]bool, cfgErr bool,
 	me commontypes.OracleID, my byte, cand byte, ocrErr bool, rd readerpkg.CCIPReader) *Plugin {
@@ -45,8 +48,23 @@ func vC16Plugin(ids []commontypes.OracleID, writers map[commontypes.OracleID]boo
 		ActiveConfig:    reader.OCR3ConfigWithMeta{ConfigDigest: vC16Digest(200)},
 		CandidateConfig: reader.OCR3ConfigWithMeta{ConfigDigest: vC16Digest(cand)},
 	}
+	// the configs of every OTHER (DON, plugin type) say the opposite about this instance's digest, so that asking the
+	// home chain for the wrong DON or the wrong plugin type flips the candidate verdict
+	hc.OCRFor = func(donID uint32, pluginType uint8) reader.ActiveAndCandidate {
+		d := hc.OCR
+		if donID == vC16Don && pluginType == consts.PluginTypeExecute {
+			return d
+		}
+		if d.CandidateConfig.ConfigDigest == vC16Digest(my) {
+			d.CandidateConfig.ConfigDigest = vC16Digest(201)
+		} else {
+			d.CandidateConfig.ConfigDigest = vC16Digest(my)
+		}
+		return d
+	}
 	return &Plugin{
 		reportingCfg:    ocr3types.ReportingPluginConfig{ConfigDigest: vC16Digest(my), OracleID: me},
+		donID:           vC16Don,
 		destChain:       vC16Dest,
 		ccipReader:      rd,
 		reportCodec:     mocks.NewExecutePluginJSONReportCodec(),
